@@ -190,8 +190,8 @@ def build(h, wd, cover=False):
 # --------------------------------------------------------------------------
 # solve
 
-def cbmc_cmd(h, gb, solver, extra=(), cover=False):
-    cmd = ["cbmc", gb, "--json-ui", "--drop-unused-functions"]
+def cbmc_cmd(h, gb, solver, extra=(), cover=False, ui="json"):
+    cmd = ["cbmc", gb, "--drop-unused-functions"] + (["--json-ui"] if ui == "json" else [])
     if h.unwind is not None:
         cmd += ["--unwind", str(h.unwind)]
     for us in h.unwindset:
@@ -233,16 +233,87 @@ def parse_json_ui(path):
     return res, None
 
 
+def parse_text_ui(path):
+    """Verdict runs use the plain-text UI: the JSON UI embeds a full counterexample trace for every failed
+    property, which for a 2^31-byte symbolic buffer means tens of gigabytes."""
+    res = {"results": [], "status": None, "messages": [], "goals": None,
+           "vccs": None, "vccs_remaining": None, "solver_s": None, "errors": []}
+    cur_file, cur_fn = "", ""
+    try:
+        f = open(path, errors="replace")
+    except OSError as ex:
+        return None, str(ex)
+    with f:
+        for ln in f:
+            ln = ln.rstrip("\n")
+            m = re.match(r"^\[(\S+)\] (?:line (\d+) )?(.*): (SUCCESS|FAILURE|UNKNOWN|ERROR)$", ln)
+            if m:
+                res["results"].append({"property": m.group(1), "description": m.group(3), "status": m.group(4),
+                                       "sourceLocation": {"file": cur_file, "function": cur_fn, "line": m.group(2)}})
+                continue
+            m = re.match(r"^(\S.*) function (\S+)$", ln)
+            if m:
+                cur_file, cur_fn = m.group(1), m.group(2)
+                continue
+            m = re.search(r"Generated (\d+) VCC\(s\), (\d+) remaining", ln)
+            if m:
+                res["vccs"], res["vccs_remaining"] = int(m.group(1)), int(m.group(2))
+            m = re.search(r"Runtime [Dd]ecision [Pp]rocedure: ([0-9.]+)s", ln)
+            if m:
+                res["solver_s"] = (res["solver_s"] or 0) + float(m.group(1))
+            if ln.startswith("VERIFICATION "):
+                res["status"] = ln.split()[1].lower()
+            if "no body for" in ln or "ignoring" in ln or "WARNING" in ln:
+                res["messages"].append(ln)
+            if ln.startswith("ERROR") or "Out of memory" in ln or "CONVERSION ERROR" in ln or "PARSING ERROR" in ln:
+                res["errors"].append(ln)
+    if res["status"] in (None, "error"):
+        res["errors"].append("cbmc ended with status %s" % res["status"])
+    if res["status"] is None:
+        res["results"] = None
+    return res, None
+
+
+def excluded_properties(h, gb, wd):
+    """CBMC reports checks that follow a failing pointer-relation check as UNKNOWN, so the accepted check classes
+    (accepted_ub.json) are taken out of the run up front: list all properties, drop those of an accepted class,
+    and select the remainder explicitly with --property.  Returns (selection_args, excluded_records, n_selected)."""
+    if not ACCEPTED:
+        return [], [], None
+    outp = os.path.join(wd, "props.json")
+    rc, o, e = run(cbmc_cmd(h, gb, h.solvers[0], ["--show-properties"]), 300, stdout_path=outp)
+    try:
+        data = json.load(open(outp))
+    except Exception as ex:
+        raise ToolError("cannot list properties: %s %s" % (ex, e[-300:]))
+    props = [p for el in data if "properties" in el for p in el["properties"]]
+    excl, keep = [], []
+    for p in props:
+        r = {"property": p["name"], "description": p["description"], "sourceLocation": p.get("sourceLocation")}
+        why = accepted_reason(r)
+        if why:
+            excl.append({"obligation": obligation_name(r), "reason": why})
+        else:
+            keep.append(p["name"])
+    if not excl:
+        return [], [], None
+    args = []
+    for k in keep:
+        args += ["--property", k]
+    return args, excl, len(keep)
+
+
 def solve(h, gb, wd):
     """Run the solver portfolio; first definitive verdict wins.  Returns dict."""
     procs = {}
-    t0 = time.time()
     outs = {}
+    sel_args, excluded, n_sel = excluded_properties(h, gb, wd)
+    t0 = time.time()
     for s in h.solvers:
         _slots.acquire()
-        outp = os.path.join(wd, "out.%s.json" % s)
+        outp = os.path.join(wd, "out.%s.txt" % s)
         outs[s] = outp
-        cmd = cbmc_cmd(h, gb, s, ["--trace"])
+        cmd = cbmc_cmd(h, gb, s, sel_args, ui="text")
         procs[s] = (subprocess.Popen(cmd, stdout=open(outp, "wb"), stderr=subprocess.PIPE,
                                      preexec_fn=_limits), cmd)
     verdicts = {}
@@ -255,7 +326,7 @@ def solve(h, gb, wd):
                 if p.poll() is not None:
                     pending.discard(s)
                     _slots.release()
-                    res, err = parse_json_ui(outs[s])
+                    res, err = parse_text_ui(outs[s])
                     if res is None or res["results"] is None:
                         stderr = p.stderr.read().decode(errors="replace")[-600:]
                         verdicts[s] = {"definitive": False,
@@ -291,7 +362,27 @@ def solve(h, gb, wd):
         raise ToolError("back ends disagree: %s" % {s: sorted(x) for s, x in sets.items()})
     s, v = min(good, key=lambda sv: sv[1]["wall_s"])
     v["backend"] = s
+    v["excluded"] = excluded
+    if n_sel is not None and len(v["results"]) != n_sel:
+        raise ToolError("selected %d properties but cbmc reported %d" % (n_sel, len(v["results"])))
+    v["cmd"] = re.sub(r"( --property \S+)+", " --property <all but the accepted check classes>", v["cmd"])
     return v
+
+
+def fetch_traces(h, gb, wd, backend, ids):
+    """Second run, only after a failure: ask the winning back end for counterexample traces of the failed
+    properties.  Kept separate because a JSON trace through a 2^31-byte symbolic array can exhaust memory;
+    if this run fails the violation is still reported, just without inputs."""
+    outp = os.path.join(wd, "trace.json")
+    extra = ["--trace"]
+    for i in ids:
+        extra += ["--property", i]
+    with _slots:
+        rc, o, e = run(cbmc_cmd(h, gb, backend, extra), min(h.timeout, 240), stdout_path=outp)
+    res, err = parse_json_ui(outp)
+    if res is None or res["results"] is None:
+        return {}
+    return {r["property"]: r.get("trace") for r in res["results"] if r["status"] == "FAILURE"}
 
 
 def cover_pass(h, wd):
@@ -365,7 +456,7 @@ def inputs_from_trace(trace):
             continue
         lhs = st.get("lhs", "")
         if lhs == "IN" or lhs.startswith("IN.") or lhs.startswith("IN["):
-            flatten(lhs, st.get("value"), vals)
+            flatten(re.sub(r"\[(\d+)[lLuU]+\]", r"[\1]", lhs), st.get("value"), vals)
     return vals
 
 
@@ -490,6 +581,7 @@ def run_harness(pid, h, tier, keep):
             if "ignoring forall" in m or "ignoring exists" in m:
                 raise ToolError("back end ignored a quantifier: " + m)
         names = []
+        rec["assumed"] = list(v.get("excluded") or [])
         for r in v["results"]:
             nm = obligation_name(r)
             if r["description"] == "undefined function should be unreachable" and r["status"] != "SUCCESS":
@@ -514,6 +606,12 @@ def run_harness(pid, h, tier, keep):
                                           "location": r.get("sourceLocation") or {},
                                           "inputs": inputs_from_trace(r.get("trace")),
                                           "trace": trace_excerpt(r.get("trace"))})
+        if rec["failed"]:
+            traces = fetch_traces(h, gb, wd, v["backend"], [f["cbmc_property"] for f in rec["failed"]])
+            for f in rec["failed"]:
+                tr = traces.get(f["cbmc_property"])
+                f["inputs"] = inputs_from_trace(tr)
+                f["trace"] = trace_excerpt(tr) if tr else "(the trace run did not complete; no counterexample values available)"
         rec["sample_obligations"] = [n for n in names if not n.startswith("__CPROVER")][:12]
         rec["user_obligations"] = sum(1 for r in v["results"] if re.search(r"\.assertion\.\d+$", r["property"])
                                       and not r["property"].startswith("__CPROVER"))
